@@ -88,3 +88,108 @@ pub fn run(a: &Args) {
     out.assumptions.push("the abstraction (which objects the stored offsets designate, with the lengths their own headers declare) is computed by the harness's independent decoder harness/src/md.rs".into());
     out.finish(&a.out, "live dumps under generated option combinations (crash context, size limit, sanitize, skip-unreferenced, application memory; 0..63 threads; open descriptors): the decoded image is abstracted to header / directory / object list and judged by the extracted predicate sound_b (valid header, declared number of entries, unique types, sizes implied by record counts, every referenced object inside the image with its declared length, no overlap except the two intended sharings); distinct by abstraction");
 }
+
+// ------------------------------------------------------------------ whole-image stage
+fn scalars(l: &mut Line, s: &str) { let cs: Vec<u32> = s.chars().map(|c| c as u32).collect(); l.z(cs.len()); for c in cs { l.u(c as u64); } }
+fn opt_bytes(l: &mut Line, b: Option<&[u8]>) { match b { Some(b) => { l.u(1).vec(b); } None => { l.u(0).u(0); } } }
+fn sl<'a>(img: &'a [u8], rva: u32, size: u32) -> Result<&'a [u8], String> { img.get(rva as usize..rva as usize + size as usize).ok_or_else(|| format!("location ({rva}, {size}) outside the image of {}", img.len())) }
+
+/// The CONTENT of a real image (what each stream says), read by the independent decoder; what the caller asked for
+/// (blamed thread, crash context, application regions) comes from the harness's own configuration.
+pub fn content_line(img: &[u8], blamed: i32, crash: Option<&minidump_writer::crash_context::CrashContext>, app: &[(u64, usize)]) -> Result<Line, String> {
+    let d = md::Dump::parse(img)?;
+    let mut l = Line::new("image");
+    l.u(u32_at(img, 20)? as u64).u(blamed as u32 as u64);
+    match crash { Some(c) => { l.u(1).u(c.inner.siginfo.ssi_signo as u64).u(c.inner.siginfo.ssi_code as u32 as u64).u(c.inner.siginfo.ssi_addr); } None => { l.u(0).u(0).u(0).u(0); } }
+    let threads = d.threads(img)?; let ml = d.memory_list(img)?;
+    l.z(threads.len());
+    for t in &threads {
+        l.u(t.tid as u64).u(t.stack.start);
+        if t.stack.loc.size > 0 { l.u(1).u(t.stack.start).vec(sl(img, t.stack.loc.rva, t.stack.loc.size)?); } else { l.u(0).u(0).u(0); }
+        // the crash thread: whatever lies between its stack (or the position recorded for its empty stack) and its context is the window
+        let gap_start = t.stack.loc.rva as usize + t.stack.loc.size as usize;
+        let is_crash = crash.is_some() && t.tid as i32 == blamed;
+        if is_crash && (t.ctx.rva as usize) > gap_start {
+            let m = ml.iter().find(|m| m.loc.rva as usize == gap_start && m.loc.size as usize == t.ctx.rva as usize - gap_start).ok_or_else(|| format!("bytes [{gap_start}, {}) before the crash thread's context are in no memory-list entry", t.ctx.rva))?;
+            l.u(1).u(m.start).vec(&img[gap_start..t.ctx.rva as usize]);
+        } else { l.u(0).u(0).u(0); }
+        l.vec(sl(img, t.ctx.rva, t.ctx.size)?);
+    }
+    let mods = d.modules(img)?;
+    l.z(mods.len());
+    for m in &mods {
+        l.u(m.base).u(m.size as u64);
+        if m.cv.size >= 4 { l.vec(&sl(img, m.cv.rva, m.cv.size)?[4..]); } else { l.u(0); }
+        scalars(&mut l, m.name.as_ref().map_err(|e| format!("module name: {e}"))?);
+        if m.version[0] != 0 { l.u(1).u(m.version[2] as u64).u(m.version[3] as u64).u(m.version[4] as u64).u(m.version[5] as u64); } else { l.u(0).u(0).u(0).u(0).u(0); }
+    }
+    if ml.len() < app.len() { return Err(format!("memory list has {} entries, fewer than the {} application regions", ml.len(), app.len())); }
+    l.z(app.len());
+    for (i, (p, _)) in app.iter().enumerate() { let m = &ml[ml.len() - app.len() + i]; l.u(*p).vec(sl(img, m.loc.rva, m.loc.size)?); }
+    let si = d.streams.get(&md::SYSTEM_INFO).ok_or("no system-information stream")?;
+    let mut raw = sl(img, si.rva, si.size)?.to_vec(); if raw.len() >= 28 { for b in &mut raw[24..28] { *b = 0; } }
+    l.vec(&raw);
+    let sinfo = d.system_info(img)?.ok_or("no system-information stream")?;
+    scalars(&mut l, sinfo.csd.as_ref().map_err(|e| format!("OS version string: {e}"))?);
+    let mi = d.memory_info(img)?;
+    l.z(mi.len()); for m in &mi { l.u(m.base).u(m.alloc_base).u(m.alloc_prot as u64).u(m.size).u(m.state as u64).u(m.prot as u64).u(m.typ as u64); }
+    let stream = |t: u32| -> Result<Option<&[u8]>, String> { match d.stream(img, t) { None => Ok(None), Some(r) => r.map(Some) } };
+    let files = [md::LINUX_CPU_INFO, md::LINUX_PROC_STATUS, md::LINUX_LSB_RELEASE, md::LINUX_CMD_LINE, md::LINUX_ENVIRON, md::LINUX_AUXV, md::LINUX_MAPS, md::MOZ_LINUX_LIMITS];
+    for t in files { opt_bytes(&mut l, stream(t)?); }
+    match d.dso_debug(img)? {
+        Some(dd) => { l.u(1).u(dd.version as u64).u(dd.brk).u(dd.ldbase).u(dd.dynamic); l.z(dd.maps.len());
+            for m in &dd.maps { l.u(m.addr); scalars(&mut l, m.name.as_ref().map_err(|e| format!("link-map name: {e}"))?); l.u(m.ld); }
+            l.vec(&dd.dynamic_bytes); }
+        None => {
+            // the step failed: whatever it had written before failing lies between the previous stream and the next one
+            let mut prev_end = 0usize;
+            for t in [md::MEMORY_INFO_LIST, md::LINUX_CPU_INFO, md::LINUX_PROC_STATUS, md::LINUX_LSB_RELEASE, md::LINUX_CMD_LINE, md::LINUX_ENVIRON, md::LINUX_AUXV, md::LINUX_MAPS] { if let Some(loc) = d.streams.get(&t) { prev_end = loc.rva as usize + loc.size as usize; } }
+            let next = d.streams.get(&md::MOZ_LINUX_LIMITS).or_else(|| d.streams.get(&md::THREAD_NAMES)).ok_or("no stream after the linker data")?.rva as usize;
+            l.u(0).vec(img.get(prev_end..next).ok_or("linker-data gap is not a range")?);
+        }
+    }
+    let names = d.thread_names(img)?;
+    l.z(names.len()); for n in &names { l.u(n.tid as u64); scalars(&mut l, n.name.as_ref().map_err(|e| format!("thread name: {e}"))?); }
+    let hs = d.handles(img)?;
+    l.z(hs.len()); for h in &hs { l.u(h.handle); scalars(&mut l, h.object_name.as_ref().map_err(|e| format!("handle name: {e}"))?); l.u(h.attributes as u64); }
+    opt_bytes(&mut l, stream(md::MOZ_SOFT_ERRORS)?);
+    Ok(l)
+}
+
+/// Whole image, byte for byte: the image must equal what the layout model (Image.v, driven by the stream plan regenerated
+/// from the source) builds from the image's own content.
+pub fn run_image(a: &Args) {
+    let mut rng = Rng::new(a.seed ^ 0x1a6e);
+    let mut out = Out::new();
+    let work = format!("{}/tmp", a.out);
+    for case in 0..a.n {
+        let focus = ["c04", "c05", "c06", "c07", "c20", "c12"][(case % 6) as usize];
+        let mut plan = gen_plan(&mut rng, focus, "quick", case + 1);
+        if plan.crash == 3 { plan.crash = 1; }
+        // modest images: the model handles any size, the token files should stay small
+        for t in plan.scen.threads.iter_mut() { t.pages = t.pages.min(3); }
+        if plan.scen.threads.len() > 30 { plan.scen.threads.truncate(30); }
+        plan.scen.lines.retain(|l| !l.starts_with("anon 320") && !l.starts_with("appmem 3"));
+        plan.napp = plan.scen.lines.iter().filter(|l| l.starts_with("appmem")).count();
+        let fancy = ["tête", "", "ñandú-7", "日本語スレ", "😀😀", "a é", "ü", " "];
+        for (i, t) in plan.scen.threads.iter_mut().enumerate() { match rng.below(4) { 0 => t.name = Some(fancy[i % fancy.len()].as_bytes().to_vec()), 1 => t.name = None, _ => {} } }
+        if rng.chance(2, 3) { plan.user_maps.push((0x2000_0000, 0x3000, format!("/opt/démo/lib{}.so.{}", rng.pick(&["über‑café", "plain", "日本"]), rng.below(9)), (0..rng.below(24)).map(|_| rng.next() as u8).collect())); }
+        if rng.chance(1, 3) { plan.user_maps.push((0x3000_0000, 0x1000, "noid".into(), vec![])); }
+        if case % 2 == 0 { plan.scen.lines.push(format!("appmem 0 {} {}", 3 * 4096 - *rng.pick(&[0x100u64, 1, 4095]), *rng.pick(&[0x200u64, 4096, 5000]))); plan.napp += 1; }
+        for k in ["file", "pipe", "socket", "dir"] { if rng.chance(1, 2) { plan.scen.lines.push(format!("fd {k}")); } }
+        let opts = format!("crash{} limit{} sanitize{} skip{} app{} threads{}", plan.crash, plan.limit.is_some() as u8, plan.sanitize as u8, plan.skip, plan.napp, plan.scen.threads.len());
+        match run_plan(&mut rng, plan, &work) {
+            Err(e) => { out.notes.push(format!("case skipped: {e}")); }
+            Ok(lv) => match &lv.image {
+                Err(e) => { out.count("dump.failed"); out.notes.push(format!("dump failed (no image to compare): {}", e.chars().take(120).collect::<String>())); }
+                Ok(img) => match content_line(img, lv.blamed, lv.crash.as_ref(), &lv.app) {
+                    Ok(l) => { let mut r = Line::bare(); r.u(1).bytes(img); out.case(l.s(), r.s(), true); out.count(&format!("options.{opts}"));
+                        // the same image judged by the property predicate itself (so that a layout difference comes with a verdict)
+                        match abstract_image(img) { Ok(al) => out.case(al.s(), "1", true), Err(e) => { let mut l = Line::new("const"); l.u(1); out.case(l.s(), &format!("!image does not decode: {e} [{opts}]"), true); } } out.count(&format!("image.kib.{}", match img.len() / 1024 { 0..=63 => "<64", 64..=255 => "64-255", _ => ">=256" })); }
+                    Err(e) => { let mut l = Line::new("const"); l.u(1); out.case(l.s(), &format!("!image content does not decode: {e} [{opts}]"), true); } },
+            },
+        }
+    }
+    out.assumptions.push("the content handed to the layout model (thread ids, stack/context/region bytes, names, identifiers, file copies) is read from the real image by the harness's independent decoder; the requested options (blamed thread, crash signal, application addresses) come from the harness's own configuration".into());
+    out.finish(&a.out, "live dumps under generated option combinations: the real image must equal, byte for byte, the image the layout model builds from the same content in the order of the stream plan regenerated from the source (header, directory patches, every stream header / array / blob position, every stored offset); distinct by content");
+}
